@@ -12,7 +12,10 @@ RULE = 'every measurement checked for ranges, token-aligned start/end, identifie
 def bounded(tier, seed, fallback_for):
     from pyvc import driver
     return [driver.run_harness(ID, "h_pipeline.py", [ID, tier, str(seed)], "program-texts:" + ID,
-                               BOUND, RULE)]
+                               BOUND, RULE),
+            driver.run_harness(ID, "h_report.py", [ID, tier, str(seed)], "codebases:" + ID,
+                               "the path sets of C07 (1..3 paths in every insertion order, random sets of 2..5), whole-codebase statistics read after every insertion",
+                               "every file still holds exactly the measurements it was given and its line total is their sum; the codebase total is the sum over files")]
 
 MANIFEST = {
     "category": "exploration",
